@@ -67,7 +67,7 @@ def gen(rng, tier):
     N = 150 if tier == "quick" else 1800
     cases = []
     for _ in range(N):
-        r = S.serial_graph(rng, depth=rng.choice([0, 1, 2]), max_nodes=rng.choice([2, 4, 6]))
+        r = S.serial_graph(rng, depth=rng.choice([0, 1, 2]), max_nodes=rng.choice([2, 4, 6]), shared=rng.random() < 0.2)
         r, how = spoil(rng, r)
         seq = [rng.choice(OBS) for _ in range(rng.randint(1, 6))]
         cases.append({"kind": "observe", "recipe": V.enc_recipe(r), "how": how, "seq": seq,
